@@ -210,7 +210,7 @@ impl<T: DataType> ColumnValueDecoder for ColumnValueDecoderImpl<T> {
         let decoder = if encoding == Encoding::RLE_DICTIONARY {
             self.decoders[encoding as usize]
                 .as_mut()
-                .expect("Decoder for dict should have been set")
+                .ok_or_else(|| general_err!("Dictionary encoded page without a dictionary"))?
         } else {
             let slot = encoding as usize;
             if self.decoders[slot].is_none() {
